@@ -128,7 +128,7 @@ func c18ProcSessions(t *rapid.T) {
 			}
 		}
 		before, _ := os.ReadFile(path)
-		end := rapid.SampledFrom([]string{"accept", "accept", "abort", "print-query", "accept-non-empty"}).Draw(t, "end")
+		end := rapid.SampledFrom([]string{"accept", "accept", "abort", "print-query", "accept-non-empty", "become(true)", "become(exit 1)"}).Draw(t, "end")
 		if end == "accept-non-empty" {
 			// documented: does not leave when there is nothing to accept. Whether there is
 			// something to accept at the moment the action runs depends on the search for the
@@ -164,8 +164,9 @@ func c18ProcSessions(t *rapid.T) {
 		}
 		s.Close()
 		data, _ := os.ReadFile(path)
-		// a query is submitted when the session ends with a result or "no match" status
-		if code == 0 || code == 1 {
+		// a query is submitted when the session ends with a result or "no match" status,
+		// or hands over to another command (become), whatever that command returns
+		if code == 0 || code == 1 || strings.HasPrefix(end, "become") {
 			if input != "" {
 				if len(model.Entries) >= max {
 					hitCap = true
